@@ -33,6 +33,8 @@ type cmEvent struct {
 	Rr          [][2]int `json:"rr"`
 	Scripts     []string `json:"scripts"`
 	Lookscripts []string `json:"lookscripts"`
+	Covf        [][2]int `json:"covf"`     // coverage built without a threaded buffer
+	Scriptsf    []string `json:"scriptsf"` // its script set
 }
 
 // segments of a partial function given as gid per rune (-1 = unmapped)
@@ -88,8 +90,13 @@ func setRanges(in []bool) [][2]int {
 	return out
 }
 
+var (
+	covBufMu sync.Mutex
+	covBufs  = map[*json.Encoder][][2]rune{}
+)
+
 func observeCmap(enc *json.Encoder, id, cls string, face *font.Face) {
-	ev := cmEvent{Id: id, Cls: cls, P: "ok", Look: [][4]int{}, Iter: [][4]int{}, Cov: [][2]int{}, Rr: [][2]int{}, Scripts: []string{}, Lookscripts: []string{}}
+	ev := cmEvent{Id: id, Cls: cls, P: "ok", Look: [][4]int{}, Iter: [][4]int{}, Cov: [][2]int{}, Rr: [][2]int{}, Scripts: []string{}, Lookscripts: []string{}, Covf: [][2]int{}, Scriptsf: []string{}}
 	func() {
 		defer func() {
 			if r := recover(); r != nil {
@@ -128,12 +135,29 @@ func observeCmap(enc *json.Encoder, id, cls string, face *font.Face) {
 			}
 		}
 		ev.Iter = funcSegments(it)
-		rs, ss := fontscan.VerifCoverages(face.Cmap)
+		// the range buffer is threaded from one cmap of the shard to the next, as the directory scan does
+		covBufMu.Lock()
+		buf := covBufs[enc]
+		covBufMu.Unlock()
+		rs, ss, buf := fontscan.VerifCoveragesBuf(face.Cmap, buf)
+		covBufMu.Lock()
+		covBufs[enc] = buf
+		covBufMu.Unlock()
 		cov := make([]bool, maxRune+1)
 		for r := rune(0); r <= maxRune; r++ {
 			cov[r] = rs.Contains(r)
 		}
 		ev.Cov = setRanges(cov)
+		// ... and built once more without a buffer
+		rsf, ssf := fontscan.VerifCoverages(face.Cmap)
+		for r := rune(0); r <= maxRune; r++ {
+			cov[r] = rsf.Contains(r)
+		}
+		ev.Covf = setRanges(cov)
+		for _, s := range ssf {
+			ev.Scriptsf = append(ev.Scriptsf, scriptName(s))
+		}
+		sort.Strings(ev.Scriptsf)
 		for _, s := range ss {
 			ev.Scripts = append(ev.Scripts, scriptName(s))
 		}
